@@ -500,8 +500,8 @@ def c04():
     return dict(
         id="C04", level="exploration", engine="rtrsim",
         builds=[_sim_build()],
-        runs=[_sim_run("fuzz", 18000, 450000), _sim_run("defect", 3600, 54000), _sim_run("faults", 2048, 40960), _sim_run("conv", 1000, 20000)],
-        floors={"c04/streams_x_chunkings": T(70000, 1700000), "c04/post_exchange_probes": T(17000, 420000), "sim/response/defective": T(10000, 200000),
+        runs=[_sim_run("fuzz", 18000, 250000), _sim_run("defect", 3600, 54000), _sim_run("faults", 2048, 40960), _sim_run("conv", 1000, 20000)],
+        floors={"c04/streams_x_chunkings": T(70000, 950000), "c04/post_exchange_probes": T(17000, 240000), "sim/response/defective": T(10000, 200000),
                 "sim/response/truncated": T(2000, 40000)},
         rule=(SIM_RULE_COMMON + "fuzz: a structure-aware generator builds a well-formed answer (Cache Response, up to 24 prefix / router-key "
               "PDUs, optional Error Report, End of Data) and applies 0-3 mutations: length field from {0,1,7,8,9,12,20,24,32,3247,3248,3249, "
